@@ -307,8 +307,11 @@ assert td.data_not_present_count == 7 and [type(n) for n in td.decoded_nodes] ==
 td = template_data([e1, Descriptor(12001)], [e1], [1.0])
 e = raises(PyBufrKitError, td.wire)
 assert 'Cannot wire descriptor type' in str(e) and 'Descriptor' in str(e)
-assert td._is_wired is True and td.index_to_node == {0: td.decoded_nodes[0]}     # not released on failure
-assert td.wire() is None and len(td.decoded_nodes) == 1                        # and not wired again
+# (rebased: since "fix: data are marked as wired only after the wiring went through" the flag stays False
+# after a failure and the failure is met again on the next attempt instead of a silent no-op)
+assert td._is_wired is False and td.index_to_node == {0: td.decoded_nodes[0]}    # not released on failure
+e = raises(PyBufrKitError, td.wire)
+assert 'Cannot wire descriptor type' in str(e) and td._is_wired is False
 # ... the same while 221 is in effect: it is counted first
 td = template_data([OperatorDescriptor(221002), object()], [], [])
 raises(PyBufrKitError, td.wire)
